@@ -175,6 +175,7 @@ class Kernel:
         self.git_calls = []
         self.installed = False
         self.kill_terminates = True
+        self.bypass = False       # True while the harness itself runs a real helper process
         self.on_block = None      # called when the main thread would block in read()
 
     # ---- bookkeeping
@@ -210,7 +211,7 @@ class Kernel:
                   errpipe_read, errpipe_write, *rest):
         argv = [os.fsdecode(a) for a in args]
         base = os.path.basename(argv[0]) if argv else ""
-        if base in self.passthrough:
+        if base in self.passthrough or self.bypass:
             pid = self._real["fork_exec"](args, executable_list, close_fds, pass_fds, cwd, env,
                                           p2cread, p2cwrite, c2pread, c2pwrite, errread, errwrite,
                                           errpipe_read, errpipe_write, *rest)
